@@ -63,6 +63,11 @@ CHECKS = {
                   'executed (files, streams, data URIs, svg_inline, svgz, in-process and subprocess CLI) and TLC checks that the reference is '
                   'the one the model prescribes and that the normalised documents are identical; sequence file names / contents, unknown '
                   'extensions and the CLI terminal output are further observation families.', ref='6 C12'),
+ 'C16': dict(tech='TLA+ payload grammars (spec/Helpers.tla: MeCard/WIFI scanner state machine, vCard content lines, URI grammar, EPC layout); scanner round trip model-checked; recorded payloads validated by TLC',
+             text='TLC proves Scan(Build(fields)) = fields and that no value changes the number of fields for all field lists over the '
+                  'delimiter / escape alphabet (640 800 lists); the same strings and adversarial ones go through the real make_*_data '
+                  'functions and TLC scans / parses the returned payloads (fields exact, one vCard line per value, valid mailto / geo URIs, '
+                  'EPC line layout, amount, character set, 331 byte limit); limits must be refused; factory symbols decoded by the C01 decoder.', ref='6 C16'),
 }
 
 NOT_YET = {}
